@@ -2,7 +2,7 @@
    Only pinned statements; proofs in Proofs/DegreeOk.v. *)
 From Coq Require Import List Bool Arith Permutation ZArith QArith.
 From GV Require Import Base.Outcome Base.AMap Model.GState Model.Creation Model.Query Model.Derived Spec.AGraph.
-From GV Require Import Proofs.WFDefs Proofs.QueryOk Proofs.DegreeOk.
+From GV Require Import Proofs.WFDefs Proofs.QueryOk Proofs.DegreeOk Proofs.MatrixOk.
 Import ListNotations.
 Close Scope Q_scope.
 Open Scope nat_scope.
@@ -87,4 +87,19 @@ Section C09.
   Theorem C09_size_weighted : forall (g : gstate),
     all_real (flat_map snd (edges g)) -> size_weighted g = Some (zsum (flat_map snd (edges g))).
   Proof. exact size_weighted_spec. Qed.
+
+  (* sparse adjacency matrix of a single-edge graph (observed as its triplet list): entry (i,j) is
+     present iff an edge is stored between the i-th and the j-th node (in either orientation when
+     undirected), with the weight of that edge (1 for an unweighted edge); symmetric when undirected *)
+  Theorem C09_matrix : forall (g : gstate),
+    WF g -> multi (sp g) = false ->
+    exists tr, matrix_triplets g = Ok tr /\
+      forall i j w, In (i, j, w) tr <->
+                    exists e es, grp_of teqb tltb g i j = Some (e :: es) /\ w = mweight e.
+  Proof. exact (matrix_spec teqb tltb tltb_asym tltb_total). Qed.
+
+  Theorem C09_matrix_symmetric : forall (g : gstate) tr i j w,
+    WF g -> multi (sp g) = false -> directed (sp g) = false ->
+    matrix_triplets g = Ok tr -> In (i, j, w) tr -> In (j, i, w) tr.
+  Proof. exact (matrix_symmetric teqb tltb tltb_asym tltb_total). Qed.
 End C09.
